@@ -42,6 +42,7 @@ func hostServer() {
 		rpc := jsonrpc.NewServer(append([]jsonrpc.ServerOption{jsonrpc.WithReverseClient[RevClient]("Rev")}, opts...)...)
 		rpc.Register("T", NewBasicAPI())
 		rpc.Register("Tok", &TokAPI{W: w})
+		rpc.AliasMethod("Tok.SubVia", "Tok.Sub")
 		for a, to := range c09Aliases {
 			rpc.AliasMethod(a, to)
 		}
